@@ -269,7 +269,137 @@ def run(ctx):
 
     streams.append(order_stream(ctx))
     streams.append(foreign_schema_stream(ctx))
+    streams.append(views_and_copies_stream(ctx))
     return streams
+
+
+def views_and_copies_stream(ctx):
+    """Two ways in which a second record comes from a first one (oracle only, outside the Lean heap model):
+    the live list view of a repeated field of record a is given to record b (assignment, constructor argument), and a
+    record is duplicated with copy.deepcopy.  Afterwards list-level operations (views) resp. any modification (deep
+    copies) on one of the two must leave the other's rendering unchanged."""
+    v = Stream("views-and-copies")
+    r = ctx.rng("C20.views")
+    from senaite.astm import codec
+    per = 40 if ctx.thorough else 8
+    for module, letter, spec in schemaio.record_specs():
+        cls = schemaio.real_class(module, letter)
+        rep_fields = [f for f in spec["fields"] if f["shape"] == "repeated" and text_subs(f)]
+        comp_fields = [f for f in spec["fields"] if f["shape"] == "component" and text_subs(f)]
+        if cls is None or not (rep_fields or comp_fields):
+            continue
+        names = [f["name"] for f in spec["fields"]]
+        for _ in range(per):
+            try:
+                la = codec.decode_record(schemaio.gen_record(r, spec, fill=0.9)[0])
+                lb = codec.decode_record(schemaio.gen_record(r, spec, fill=0.5)[0])
+                a = cls(*la)
+            except Exception:
+                continue
+            how = r.choice(["assign-view", "construct-view", "construct-view-kw", "deepcopy", "deepcopy"])
+            f = r.choice(rep_fields) if rep_fields and (how != "deepcopy" or r.random() < 0.7) else None
+            case = {"module": module, "letter": letter, "how": how, "field": f["name"] if f else None,
+                    "a": hexb(codec.encode_record(la, "utf-8") if _encodable(la) else b""), "ops": []}
+            try:
+                if how == "deepcopy":
+                    b = copy.deepcopy(a)
+                    if b.to_dict() != a.to_dict():
+                        v.case(case)
+                        v.fail(case, "a deep copy of a record renders differently from the record", "views-and-copies/copy-differs")
+                        continue
+                elif f is None:
+                    continue
+                else:
+                    view = getattr(a, f["name"])
+                    if not isinstance(view, list) or a._data.get(f["name"]) is None:
+                        continue
+                    if how == "assign-view":
+                        b = cls(*lb)
+                        setattr(b, f["name"], view)
+                    elif how == "construct-view":
+                        i = names.index(f["name"])
+                        args = (lb + [None] * (i + 1 - len(lb)))
+                        args[i] = view
+                        b = cls(*args)
+                    else:
+                        b = cls(**{f["name"]: view})
+            except Exception:
+                continue
+            v.case(case)
+            v.count(how)
+            # operations on one of the two; the other must not change
+            for _k in range(r.randrange(1, 6)):
+                tgt, other = (a, b) if r.random() < 0.5 else (b, a)
+                before = copy.deepcopy(other.to_dict())
+                try:
+                    if how == "deepcopy":
+                        op = r.choice(["occ-sub", "comp-sub", "append", "pop", "assign"])
+                    else:
+                        op = r.choice(["append", "insert", "pop", "del", "replace", "iadd", "imul"])
+                    ff = f or (r.choice(rep_fields) if rep_fields and op not in ("comp-sub",) else None)
+                    if op == "comp-sub" or ff is None:
+                        if not comp_fields:
+                            continue
+                        cf = r.choice(comp_fields)
+                        comp = getattr(tgt, cf["name"])
+                        if comp is None or tgt._data.get(cf["name"]) is None:
+                            continue
+                        setattr(comp, r.choice(text_subs(cf))["name"], schemaio.rand_text(r))
+                        op = "comp-sub"
+                    else:
+                        lst = getattr(tgt, ff["name"])
+                        if tgt._data.get(ff["name"]) is None:
+                            continue
+                        items, _ = schemaio.gen_component(r, ff["sub"], force=True)
+                        if op == "occ-sub":
+                            if not lst:
+                                continue
+                            setattr(lst[r.randrange(len(lst))], r.choice(text_subs(ff))["name"], schemaio.rand_text(r))
+                        elif op == "append":
+                            lst.append(items)
+                        elif op == "insert":
+                            lst.insert(r.randrange(len(lst) + 1), items)
+                        elif op == "pop":
+                            if not lst:
+                                continue
+                            lst.pop(r.randrange(len(lst)))
+                        elif op == "del":
+                            if not lst:
+                                continue
+                            del lst[r.randrange(len(lst))]
+                        elif op == "replace":
+                            if not lst:
+                                continue
+                            lst[r.randrange(len(lst))] = items
+                        elif op == "iadd":
+                            lst += [items]
+                        elif op == "imul":
+                            lst *= 2
+                        elif op == "assign":
+                            setattr(tgt, ff["name"], [items])
+                except Exception:
+                    continue
+                case["ops"].append("%s on %s" % (op, "a" if tgt is a else "b"))
+                try:
+                    after = other.to_dict()
+                except Exception as e:  # noqa
+                    after = "unrenderable: %r" % (e,)
+                if after != before:
+                    v.fail(dict(case, before=repr(before)[:300], after=repr(after)[:300]),
+                           "%s on one record changed the record that was %s" % (
+                               op, "deep-copied from / to it" if how == "deepcopy" else "given its list view"),
+                           "views-and-copies/" + ("deepcopy" if how == "deepcopy" else "view"))
+                    break
+    return v
+
+
+def _encodable(lst):
+    try:
+        from senaite.astm import codec
+        codec.encode_record(lst, "utf-8")
+        return True
+    except Exception:
+        return False
 
 
 def foreign_schema_stream(ctx):
